@@ -344,6 +344,8 @@ def _stage_origin(node, tags=frozenset()):
             return 'fresh'
         if f in ('copy.deepcopy', 'deepcopy'):
             return 'fresh'
+        if f in ('copy.copy',) and len(node.args) == 1:
+            return _stage_origin(node.args[0], tags)      # a shallow copy shares the sub-trees of its original
         if f in ('filter',) and len(node.args) == 2:
             return _stage_origin(node.args[1], tags)
         if isinstance(node.func, ast.Attribute) and node.func.attr in ('get', 'setdefault', 'pop', 'copy') and _stage_origin(node.func.value, tags) == 'stored':
@@ -351,12 +353,16 @@ def _stage_origin(node, tags=frozenset()):
         return None
     if isinstance(node, (ast.GeneratorExp, ast.ListComp)) and len(node.generators) == 1:
         g = node.generators[0]
-        if isinstance(node.elt, ast.Name) and isinstance(g.target, ast.Name) and node.elt.id == g.target.id:
+        elt = node.elt
+        while isinstance(elt, ast.Call) and norm(elt.func) == 'copy.copy' and len(elt.args) == 1:
+            elt = elt.args[0]                       # a shallow copy shares the sub-trees of its original
+        if isinstance(elt, ast.Name) and isinstance(g.target, ast.Name) and elt.id == g.target.id:
             return _stage_origin(g.iter, tags)      # (d for d in <iter> if ...): a selection of the iterable's own elements
         o = _stage_origin(node.elt, tags)
         return o if o == 'fresh' else None
     if isinstance(node, ast.Subscript):
-        return _stage_origin(node.value, tags)
+        # something looked up by key / position was put there earlier, unless the container itself is this call's parse result
+        return 'fresh' if _stage_origin(node.value, tags) == 'fresh' else 'stored'
     if isinstance(node, ast.Attribute):
         base = node
         while isinstance(base, (ast.Attribute, ast.Subscript)):
